@@ -612,6 +612,42 @@ func runC14(r *vf.Run) {
 			}
 		}
 	}
+	// 2c. (round 7) unknown names that are NEAR the names of the schema: one multi-byte character inserted at, or put in
+	// place of, every position of every column name (2-, 3- and 4-byte characters, an invalid byte cannot travel), and the
+	// same with an ASCII typo, as comparison column and as group-by entry. Whatever the server does with a name it does
+	// not know (suggestions, metrics labels, log lines), it answers with an error and goes on.
+	{
+		seen := map[string]bool{}
+		k := 0
+		for _, c := range cols {
+			for pos := 0; pos <= len(c); pos++ {
+				for _, ins := range []string{"ö", "国", "😀", "x", ""} {
+					for _, replace := range []bool{false, true} {
+						if replace && pos == len(c) {
+							continue
+						}
+						name := c[:pos] + ins + c[pos:]
+						if replace {
+							name = c[:pos] + ins + c[pos+1:]
+						}
+						if seen[name] || ds.Cols[name] {
+							continue
+						}
+						seen[name] = true
+						k++
+						q := &pb.Query{Expr: oracle.Eq(name, "x").ToProto()}
+						switch k % 3 {
+						case 1:
+							q = &pb.Query{Expr: a.ToProto(), GroupBy: []string{name}}
+						case 2:
+							q = &pb.Query{Expr: oracle.And(a, oracle.Not(oracle.Eq(name, "x"))).ToProto(), GroupBy: []string{gbc, name}}
+						}
+						addMsg(fmt.Sprintf("near-name/%d", k), "unknown-name-near-a-column", &pb.QueryRequest{Queries: []*pb.Query{q}})
+					}
+				}
+			}
+		}
+	}
 	// 3. deep nesting up to the decoder's limit
 	for _, depth := range []int{100, 2000, 4900, 5100, 9000} {
 		e := &pb.Query_Expression{Value: &pb.Query_Expression_Eq{Eq: &pb.Query_Expression_Equal{Column: cols[0], Value: "x"}}}
@@ -665,7 +701,7 @@ func runC14(r *vf.Run) {
 		if !r.Want("inproc/" + h.id) {
 			continue
 		}
-		if h.req != nil && (h.class == "well-formed-value-list" || h.class == "wide-operator-with-failing-operands") {
+		if h.req != nil && (h.class == "well-formed-value-list" || h.class == "wide-operator-with-failing-operands" || h.class == "unknown-name-near-a-column") {
 			// the same message on a preloaded index without cache (the other open configuration of the server)
 			for _, pq := range h.req.Queries {
 				r.Eval(1)
@@ -933,6 +969,7 @@ func runC14(r *vf.Run) {
 		r.Cover("concurrent_phase_configurations", name)
 	}
 	r.Sample("requests", map[string]any{"classes": map[string]int{"total": len(reqs)}, "example_omission": reqs[1].id, "example_hex": fmt.Sprintf("%x", headBytes(reqs[1].raw, 200))})
+	c14Stderr(r, path, probes)
 	r.Floor("every omission kind applied", r.Covered("omission_kinds") == len(omissionKinds))
 	r.Floor("probes answered", r.GetCount("probes_answered_correctly") > 100)
 	if r.Thorough() {
